@@ -1,11 +1,20 @@
 (* C17 — per-case judge used by generated case files.
    A case = one player: configuration, virtual host string, a history of operations driven through the
-   real connectedPlayer (nextServerToTry / setConnectedServer / setInFlightConnection), and what the
-   real code returned after each operation (chosen server name, tryIndex), plus the observed
-   getVirtualHostname(). *)
+   real connectedPlayer (nextServerToTry / setConnectedServer / setInFlightConnection), what the real
+   code returned after each operation (chosen server name, tryIndex), the observed
+   getVirtualHostname(), and optionally a final handleConnectionErr2 with the initial result of the
+   KickedFromServerEvent it fired. *)
 From Coq Require Import List NArith Bool Arith.
 From Verif Require Import Base.Hex Base.Text Base.Verdict Model.TryList.
 Import ListNotations.
+
+(* final kick: registry, kicked-from server, safe flag; observed: initial result, whether the
+   disconnect reason / notify message was the friendly reason passed in, tryIndex and the
+   connected / in-flight servers afterwards *)
+Record kick_in := mkKick { k_reg : list bytes; k_rs : bytes; k_safe : bool }.
+Record kick_obs := mkKObs {
+  k_result : kick_result; k_reason_ok : bool; k_cursor : nat;
+  k_connected : option bytes; k_inflight : option bytes }.
 
 Record case := mk {
   cfg : config;
@@ -13,7 +22,8 @@ Record case := mk {
   vh_obs : bytes;              (* observed getVirtualHostname() *)
   hint : option nat;           (* generator's claim: vhost = plain host of this length ++ removable suffix *)
   ops : list op;
-  observed : list obs
+  observed : list obs;
+  kick_ : option (kick_in * kick_obs)
 }.
 
 Definition beq_obytes (a b : option bytes) : bool :=
@@ -31,6 +41,13 @@ Fixpoint beq_obs (a b : list obs) : bool :=
   | _, _ => false
   end.
 
+Definition beq_kick (a b : kick_result) : bool :=
+  match a, b with
+  | KUnsafe, KUnsafe | KDisconnect, KDisconnect | KNotify, KNotify => true
+  | KRedirect x, KRedirect y => beq_bytes x y
+  | _, _ => false
+  end.
+
 (* property clause "port, Forge and TCPShield suffixes removed, compared case-insensitively":
    on a virtual host of the shape [plain host ++ removable suffix] the host used for the lookup is the
    lower-cased plain host (Properties/C17.v, C17_clean_removes_suffixes) *)
@@ -43,16 +60,42 @@ Definition clean_clause (c : case) : bool :=
   | None => true
   end.
 
-Definition judge (c : case) : verdict :=
+(* model agrees with everything observed *)
+Definition agree (c : case) : bool :=
+  beq_bytes (vh_obs c) (clean (vhost c))
+  && beq_obs (run (cfg c) (vhost c) init_state (ops c)) (observed c)
+  && match kick_ c with
+     | None => true
+     | Some (ki, ko) =>
+       let st := run_state (cfg c) (vhost c) init_state (ops c) in
+       let '(st', r) := kick (cfg c) (vhost c) (k_reg ki) st (k_rs ki) (k_safe ki) in
+       beq_kick r (k_result ko) && k_reason_ok ko && Nat.eqb (cursor st') (k_cursor ko)
+       && beq_obytes (connected st') (k_connected ko) && beq_obytes (inflight st') (k_inflight ko)
+     end.
+
+(* the property's predicate on what the implementation was observed to do *)
+Definition holds (c : case) : bool :=
   let cands := candidates (cfg c) (vhost c) in
-  let agree := beq_bytes (vh_obs c) (clean (vhost c))
-               && beq_obs (run (cfg c) (vhost c) init_state (ops c)) (observed c) in
+  holds_history cands (mkS None None) 0 (ops c) (observed c)
+  && match kick_ c with
+     | None => true
+     | Some (ki, ko) =>
+       holds_kick cands (s_run (mkS None None) (ops c)) (last_cursor (observed c))
+                  (k_reg ki) (k_rs ki) (k_safe ki) (k_result ko)
+       (* "disconnected with the kick reason" *)
+       && match k_result ko with KDisconnect => k_reason_ok ko | _ => true end
+     end.
+
+Definition premise (c : case) : bool :=
+  let cands := candidates (cfg c) (vhost c) in
+  consistent_ops cands (ops c)
+  && match kick_ c with None => true | Some (ki, _) => consistent (k_reg ki) cands end.
+
+Definition judge (c : case) : verdict :=
   if negb (clean_clause c) then VViolation
-  else if consistent_ops cands (ops c) then
-    (if holds_history cands (mkS None None) 0 (ops c) (observed c)
-     then (if agree then VOk else VMismatch)
-     else VViolation)
+  else if premise c then
+    (if holds c then (if agree c then VOk else VMismatch) else VViolation)
   else
     (* outside the loaded-configuration premise (a registered name differs from a listed one only by
        case): only the correspondence with the faithful model is checked *)
-    (if agree then VOk else VMismatch).
+    (if agree c then VOk else VMismatch).
